@@ -18,20 +18,33 @@
 (* num/den.  Everything is string keyed so that the very same values are   *)
 (* produced by Json!JsonDeserialize from a recorded trace.                 *)
 (***************************************************************************)
-EXTENDS Integers, Sequences, FiniteSets, FiniteSetsExt, SequencesExt, Functions, TLC
+EXTENDS Integers, Sequences, FiniteSets, FiniteSetsExt, SequencesExt, Functions, TLC, IOUtils, Json
 
 NoParent == ""
 UnknownType == "unknown"
 
 \* The part of the standard (os-resource-classes / os-traits) vocabulary the
 \* models and drivers draw from; every other standard name behaves alike.
-StdClasses == {"VCPU", "MEMORY_MB", "DISK_GB", "PCI_DEVICE", "SRIOV_NET_VF", "VGPU"}
+\* Trace validation of executions that use other names (the repository's own
+\* functional test corpus) extends the vocabulary through a JSON file named
+\* by the environment variable PV_VOCAB:
+\*   std_classes, std_traits : the installed os-resource-classes / os-traits
+\*   custom_classes, custom_traits : the names of the run that NameRules.tla
+\*                                    judged legal (TLC pre-pass)
+\*   prefixes : [prefix |-> names of the run that start with it]
+\* Without the variable the vocabulary is the base one.
+Vocab == IF "PV_VOCAB" \in DOMAIN IOEnv
+         THEN JsonDeserialize(IOEnv.PV_VOCAB)
+         ELSE [std_classes |-> <<>>, std_traits |-> <<>>, custom_classes |-> <<>>, custom_traits |-> <<>>,
+               prefixes |-> <<>>]
+VocabSet(q) == {q[i] : i \in DOMAIN q}
+StdClasses == {"VCPU", "MEMORY_MB", "DISK_GB", "PCI_DEVICE", "SRIOV_NET_VF", "VGPU"} \cup VocabSet(Vocab.std_classes)
 StdTraits  == {"HW_CPU_X86_AVX", "HW_CPU_X86_AVX2", "STORAGE_DISK_SSD",
-               "MISC_SHARES_VIA_AGGREGATE", "COMPUTE_VOLUME_MULTI_ATTACH"}
+               "MISC_SHARES_VIA_AGGREGATE", "COMPUTE_VOLUME_MULTI_ATTACH"} \cup VocabSet(Vocab.std_traits)
 SharingTrait == "MISC_SHARES_VIA_AGGREGATE"
 \* Custom names (CUSTOM_ + [A-Z0-9_]+, <= 255 chars) the models draw from.
-CustomClassPool == {"CUSTOM_RC1", "CUSTOM_RC2", "CUSTOM_RC3", "CUSTOM_RC4"}
-CustomTraitPool == {"CUSTOM_T1", "CUSTOM_T2", "CUSTOM_T3", "CUSTOM_T4"}
+CustomClassPool == {"CUSTOM_RC1", "CUSTOM_RC2", "CUSTOM_RC3", "CUSTOM_RC4"} \cup VocabSet(Vocab.custom_classes)
+CustomTraitPool == {"CUSTOM_T1", "CUSTOM_T2", "CUSTOM_T3", "CUSTOM_T4"} \cup VocabSet(Vocab.custom_traits)
 \* Syntactically well formed class/trait names (pattern [A-Z0-9_]+) that are
 \* neither standard nor creatable as custom ones.
 BogusUpperNames == {"NOSUCH", "NOSUCH_TOO"}
